@@ -2,9 +2,9 @@
 from mc import world
 from mc.engine import Family, Res
 from mc.interp import build, count_events
-from mc.ref.schedule import Judge, canonical_state
+from mc.ref.schedule import Judge, canonical_state, structure_sig
 from mc.ref.unroll import model_build, model_rows, impl_rows, Sched
-from mc.spaces import FlatSpace, NestedSpace1, N1_BODIES, N1_BODIES_EXTRA
+from mc.spaces import FlatSpace, NestedSpace1, NestedSpace2, N1_BODIES, N1_BODIES_EXTRA
 
 
 class SchedFamily(Family):
@@ -40,6 +40,16 @@ class SchedFamily(Family):
                 judge.check_listing(b, ops, ops_again, 'as built')
                 if circ.get_last_entry() is not b.ent[-1]:
                     res.fail('C02-last-entry', 'get_last_entry is not the last value returned by add for %r' % (prog,))
+                # the same program built while listing after every single add must list the same
+                world.clear_memo()
+                seen_lengths = []
+                b_inc = build(prog, observe=lambda cc: seen_lengths.append(len(cc.operations)))
+                inc_ops = b_inc.circ.operations
+                if structure_sig(inc_ops, b_inc.circ.composite_operations) != structure_sig(ops, circ.composite_operations):
+                    res.fail('C02-listing-history', 'program %r: listing after every add gives a different final listing (%d vs %d operations)' % (prog, len(inc_ops), len(ops)))
+                else:
+                    judge.check_listing(b_inc, inc_ops, b_inc.circ.operations, 'built with intermediate listings')
+                world.clear_memo()
             ok = True
             if 'C01' in self.want:
                 ok = judge.validate_tree(b)
@@ -96,7 +106,9 @@ def families_for(want, tier):
             fams.append(SchedFamily(FlatSpace(3), cfgname, want, unroll=False))
         fams.append(SchedFamily(NestedSpace1(3), 'G', want, unroll=True))
         fams.append(SchedFamily(NestedSpace1(2, reps=(1, 2, 3), bodies=N1_BODIES + N1_BODIES_EXTRA), 'H', want, unroll=True))
+        fams.append(SchedFamily(NestedSpace2(2), 'G', want, unroll=False))
     else:
+        fams.append(SchedFamily(NestedSpace2(2), 'G', want, unroll=True))
         for cfgname in ('G', 'D'):
             fams.append(SchedFamily(FlatSpace(4), cfgname, want, unroll=False))
         fams.append(SchedFamily(FlatSpace(3), 'H', want, unroll=False))
